@@ -9,7 +9,8 @@ PID = "C17"
 RULE = ("seeded EMD 0.1 files (1-4 data groups tagged emd_group_type=1 at depth 0-3 of ordinary groups, any rank 1-4 and dtype, "
         "full-length 1-based dim datasets with name / units), non-EMD HDF5 files (missing / wrong header attributes, files emdfile wrote whose header version is changed to 1.1 / 2.0 / 0.9 / 1.-1 …, no roots, unrelated content) and non-HDF5 bytes; read() observed as: imported arrays by name with data token, "
         "per-axis dim values (bit-exact), names and units, single Array vs. root, or the kind of error; compared with the Lean "
-        "legacy model and with the direct predicate; 6 % of the data groups have 10-12 axes (dim10 sorts before dim2); non-trivial = >= 2 data groups or a refused file; distinct by recipe hash")
+        "legacy model and with the direct predicate; 6 % of the data groups have 10-12 axes (dim10 sorts before dim2); files the package wrote with one header attribute "
+        "REMOVED; non-trivial = >= 2 data groups or a refused file; distinct by recipe hash")
 GNAMES = ["data", "raw", "experiment 1", "Mess_é", "stack", "a", "b", "image", "spectrum"]
 
 
